@@ -33,6 +33,9 @@ second image differs from the cut one), gen 2 renders the image that the object 
     cases(seed, n) -> n histories (boundary ones first, then random ones drawn from `seed`)
     render(case)   -> Coq term
 
+HOSTILE directory areas (property C15): see hostile_cases / render_hostile below;
+       /venv/bin/python /verif/tools/parse_cases.py hostile SEED N [OUTDIR]   (shards of 25 cases, H<k>.v, `= []`)
+
 usage: /venv/bin/python /verif/tools/parse_cases.py SEED N [OUTDIR]   (writes shards of <= 60 cases, S<k>.v;
        check each with  cd /verif/coq && coqc -q -Q theories PV OUTDIR/S<k>.v  -- it must print `= []`)
 """
@@ -298,7 +301,222 @@ HEADER = ('From Coq Require Import ZArith List Bool.\nImport ListNotations.\n'
           'From PV.Model Require Import Master Parse.\nLocal Open Scope Z_scope.\n')
 
 
+# ---------------------------------------------------------------------------------------- hostile directory areas (C15)
+# A valid written image is damaged on purpose; what open_fp does with the bytes (the graph it builds, or the raise
+# point it reaches) is read off the REAL library and compared with Parse.parse_file on the same bytes
+# (Model/ParseHostile.v, bad_hostile_cases).
+#     hostile_cases(seed, n) -> n cases (the designed ones first, then seeded random byte flips in directory blocks)
+#     render_hostile(case)   -> Coq term of type ParseHostile.ps_hcase
+
+def hostile_bases():
+    a = [('dir', '/A'), ('dir', '/A/B'), ('dir', '/C'), ('file', '/A/' + fname(1, 12), 5), ('file', '/A/' + fname(2, 12), 0),
+         ('file', '/A/B/' + fname(3, 9), 2049), ('file', '/' + fname(4, 9), 7), ('file', '/C/' + fname(5, 13), 1),
+         ('file', '/Q', 3), ('dir', '/C/D')]
+    b = [('dir', '/BIG')] + [('file', '/BIG/' + fname(k, 11), k % 3) for k in range(50)] + [('dir', '/BIG/S'), ('file', '/BIG/S/X.;1', 4)]
+    return [build(a)[1], build(b)[1]]
+
+
+def raw_records(img):
+    """every record of a VALID image: dict(dir=(ext, len), off=absolute offset, ...), breadth first"""
+    (rext, rlen), _date, _dirs = mc.cut_dirs(img)
+    queue, out = [(rext, rlen)], []
+    while queue:
+        ext, ln = queue.pop(0)
+        base, off, k = ext * BLOCK, 0, 0
+        while off < ln:
+            l = img[base + off]
+            if l == 0:
+                off = (off // BLOCK + 1) * BLOCK
+                continue
+            o = base + off
+            r = dict(dir=(ext, ln), off=o, dr_len=l, ext=struct.unpack_from('<I', img, o + 2)[0],
+                     dlen=struct.unpack_from('<I', img, o + 10)[0], flags=img[o + 25], len_fi=img[o + 32],
+                     name=bytes(img[o + 33:o + 33 + img[o + 32]]), idx=k)
+            out.append(r)
+            if k >= 2 and r['flags'] & 2:
+                queue.append((r['ext'], r['dlen']))
+            off += l
+            k += 1
+    return out
+
+
+def put32(img, o, v):
+    img[o:o + 8] = struct.pack('<I', v) + struct.pack('>I', v)
+
+
+def hostile_mutations(img):
+    """[(name, mutated image)] designed damages of one valid image"""
+    recs = raw_records(img)
+    dirs = [r for r in recs if r['flags'] & 2 and r['idx'] >= 2]
+    files = [r for r in recs if not r['flags'] & 2]
+    dots = [r for r in recs if r['idx'] == 0]
+    root_ext = recs[0]['dir'][0]
+    out = []
+
+    def mut(name, fn):
+        m = bytearray(img)
+        fn(m)
+        out.append((name, bytes(m)))
+    for i, d in enumerate(dirs):
+        mut('dir%d_to_root' % i, lambda m, d=d: put32(m, d['off'] + 2, root_ext))
+        mut('dir%d_to_parent' % i, lambda m, d=d: put32(m, d['off'] + 2, d['dir'][0]))
+        mut('dir%d_to_sibling' % i, lambda m, d=d, i=i: put32(m, d['off'] + 2, dirs[(i + 1) % len(dirs)]['ext']))
+        mut('dir%d_not_in_ptable' % i, lambda m, d=d: put32(m, d['off'] + 2, files[0]['ext'] or 5))
+        mut('dir%d_len_2g' % i, lambda m, d=d: put32(m, d['off'] + 10, 2 ** 31))
+        mut('dir%d_len_0' % i, lambda m, d=d: put32(m, d['off'] + 10, 0))
+        mut('dir%d_len_100' % i, lambda m, d=d: put32(m, d['off'] + 10, 100))
+        mut('dir%d_len_3000' % i, lambda m, d=d: put32(m, d['off'] + 10, 3000))
+        mut('dir%d_len_2blocks' % i, lambda m, d=d: put32(m, d['off'] + 10, 4096))
+        mut('dir%d_beyond_eof' % i, lambda m, d=d: put32(m, d['off'] + 2, len(img) // BLOCK + 7))
+        mut('dir%d_flag_cleared' % i, lambda m, d=d: m.__setitem__(d['off'] + 25, 0))
+        mut('dir%d_named_dot' % i, lambda m, d=d: m.__setitem__(slice(d['off'] + 32, d['off'] + 34), bytes([1, 0])))
+        mut('dir%d_named_dotdot' % i, lambda m, d=d: m.__setitem__(slice(d['off'] + 32, d['off'] + 34), bytes([1, 1])))
+    for i, f in enumerate(files[:8]):
+        mut('file%d_lenbyte_0' % i, lambda m, f=f: m.__setitem__(f['off'], 0))
+        mut('file%d_lenbyte_20' % i, lambda m, f=f: m.__setitem__(f['off'], 20))
+        mut('file%d_lenbyte_254' % i, lambda m, f=f: m.__setitem__(f['off'], 254))
+        mut('file%d_lenfi_200' % i, lambda m, f=f: m.__setitem__(f['off'] + 32, 200))
+        mut('file%d_lenfi_0' % i, lambda m, f=f: m.__setitem__(f['off'] + 32, 0))
+        mut('file%d_extent_be_wrong' % i, lambda m, f=f: m.__setitem__(f['off'] + 9, (m[f['off'] + 9] + 1) % 256))
+        mut('file%d_seqnum_be_wrong' % i, lambda m, f=f: m.__setitem__(f['off'] + 31, 7))
+        mut('file%d_xattr_record_bit' % i, lambda m, f=f: (m.__setitem__(f['off'] + 1, 3), m.__setitem__(f['off'] + 25, 8)))
+        mut('file%d_dir_flag' % i, lambda m, f=f: m.__setitem__(f['off'] + 25, 2))
+        mut('file%d_huge' % i, lambda m, f=f: put32(m, f['off'] + 10, 2 ** 32 - 1))
+        mut('file%d_extent_of_next' % i, lambda m, f=f, i=i: put32(m, f['off'] + 2, files[(i + 1) % len(files)]['ext']))
+        if f['name'].endswith(b';1'):
+            mut('file%d_version_X' % i, lambda m, f=f: m.__setitem__(f['off'] + 33 + f['len_fi'] - 1, ord('X')))
+            mut('file%d_version_0' % i, lambda m, f=f: m.__setitem__(f['off'] + 33 + f['len_fi'] - 1, ord('0')))
+        if f['len_fi'] == 1:
+            mut('file%d_named_dot' % i, lambda m, f=f: m.__setitem__(f['off'] + 33, 0))
+            mut('file%d_named_dotdot' % i, lambda m, f=f: m.__setitem__(f['off'] + 33, 1))
+    for i, d in enumerate(dots[:4]):
+        mut('dot%d_named_A' % i, lambda m, d=d: m.__setitem__(d['off'] + 33, 65))
+        mut('dot%d_lenbyte_0' % i, lambda m, d=d: m.__setitem__(d['off'], 0))
+    pvd = 16 * BLOCK
+    mut('ptable_empty', lambda m: put32(m, pvd + 132, 0))
+    mut('root_beyond_eof', lambda m: put32(m, pvd + 156 + 2, len(img) // BLOCK + 3))
+    mut('root_len_0', lambda m: put32(m, pvd + 156 + 10, 0))
+    mut('root_len_1', lambda m: put32(m, pvd + 156 + 10, 1))
+    mut('root_is_subdir', lambda m: put32(m, pvd + 156 + 2, dirs[0]['ext']))
+    mut('root_len_rest_of_image', lambda m: put32(m, pvd + 156 + 10, len(img) - root_ext * BLOCK))
+    return out
+
+
+def hostile_cases(seed, n):
+    cs = []
+    for b, img in enumerate(hostile_bases()):
+        cs += [('h%d_%s' % (b, nm), m) for nm, m in hostile_mutations(img)]
+    cs = cs[:n]
+    rng = random.Random(seed * 104729 + 7)
+    bases = hostile_bases()
+    k = 0
+    while len(cs) < n:
+        img = bytearray(bases[k % len(bases)])
+        recs = raw_records(bytes(img))
+        for _ in range(rng.choice([1, 1, 2, 3])):
+            r = rng.choice(recs)
+            o = r['off'] + rng.choice([0, 1, 2, 3, 10, 11, 25, 26, 27, 28, 32, 33, 34, r['dr_len'] - 1])
+            img[o] = rng.choice([0, 1, 2, 34, 255, rng.randrange(256)])
+        cs.append(('hrand_%d_%d' % (seed, k), bytes(img)))
+        k += 1
+    return cs
+
+
+def classify(err):
+    msg = str(err)
+    if isinstance(err, pycdlib.pycdlibexception.PyCdlibInvalidInput):
+        if 'Failed adding duplicate name to parent' in msg:
+            return 4
+    if isinstance(err, pycdlib.pycdlibexception.PyCdlibInvalidISO):
+        for text, k in (('Invalid directory record', 1), ('extent location disagree', 2), ('seqnum disagree', 2),
+                        ('Record Bit not allowed', 2), ('Protection Bit not allowed', 2), ('Malformed ISO (error', 2),
+                        ('Malformed ISO (KeyError', 3), ('Malformed ISO (ValueError', 5), ('Invalid padding on ISO', 6),
+                        ('Directory loop on the ISO', 7), ('Malformed ISO (IndexError', 8)):
+            if text in msg:
+                return k
+    raise RuntimeError('outcome of open_fp not attributable to the directory walk: %s: %s' % (type(err).__name__, msg))
+
+
+def disc_names(img, ext, ln):
+    """identifiers of the records of a directory extent in the order they lie on disc (the loop of the library)"""
+    data = img[ext * BLOCK:ext * BLOCK + ln]
+    off, out = 0, []
+    while off < ln:
+        l = data[off]
+        if l == 0:
+            off += BLOCK - off % BLOCK
+            continue
+        r = data[off:off + l]
+        out.append((r[33:33 + r[32]], r[25]))
+        off += l
+    return out
+
+
+def hostile_outcome(img):
+    iso = pycdlib.PyCdlib()
+    try:
+        iso.open_fp(io.BytesIO(img))
+    except Exception as err:  # pylint: disable=broad-except
+        return ('invalid', classify(err))
+    ino_index = {id(ino): k for k, ino in enumerate(iso.inodes)}
+    root = iso.pvd.root_directory_record()
+    order, number, queue = [root], {id(root): 0}, collections.deque([root])
+    while queue:                                    # the order in which the walk popped the directories
+        d = queue.popleft()
+        kids = {c.file_ident: c for c in d.children if c.is_dir() and not c.is_dot() and not c.is_dotdot()}
+        for nm, fl in disc_names(img, d.extent_location(), d.get_data_length()):
+            if fl & 2 and nm not in (b'\x00', b'\x01'):
+                c = kids[nm]
+                number[id(c)] = len(order)
+                order.append(c)
+                queue.append(c)
+    dirs = []
+    for d in order:
+        dirs.append([(c.file_ident, c.file_flags, c.extent_location(), c.data_length, c.dr_len,
+                      (c.index_in_parent, c.extents_to_here, c.offset_to_here),
+                      (ino_index[id(c.inode)] if c.inode is not None else -1, number.get(id(c), -1))) for c in d.children])
+    return ('ok', (dirs, [(ino.extent_location(), ino.get_data_length()) for ino in iso.inodes], iso.interchange_level))
+
+
+def render_hostile(case):
+    img = case[1]
+    pvd = 16 * BLOCK
+    rext, rlen = struct.unpack_from('<I', img, pvd + 158)[0], struct.unpack_from('<I', img, pvd + 166)[0]
+    kind, val = hostile_outcome(img)
+    if kind == 'ok':
+        dirs, inodes, level = val
+        ex = 'HOk ([%s], [%s], %d)' % ('; '.join('[%s]' % '; '.join(coq_erec(r) for r in d) for d in dirs),
+                                       '; '.join('(%d, %d)' % x for x in inodes), level)
+    else:
+        ex = 'HInvalid %d' % val
+    body = '; '.join('(%d, %s)' % (z, zl(lit)) for z, lit in mc.rle(img))
+    return '(%s, (%d, %d), [%s], %s)' % (zl(ptr_extents(img)), rext, rlen, body, ex)
+
+
+HOSTILE_HEADER = ('From Coq Require Import ZArith List Bool.\nImport ListNotations.\n'
+                  'From PV.Model Require Import Master Parse ParseHostile.\nLocal Open Scope Z_scope.\n')
+
+
+def main_hostile(seed, n, outdir):
+    os.makedirs(outdir, exist_ok=True)
+    cs = hostile_cases(seed, n)
+    shard, k, kinds = 25, 0, collections.Counter()
+    for i in range(0, len(cs), shard):
+        texts = []
+        for c in cs[i:i + shard]:
+            t = render_hostile(c)
+            kinds[t[t.rfind('], H') + 3:][:11]] += 1
+            texts.append(t)
+        with open(os.path.join(outdir, 'H%d.v' % k), 'w') as f:
+            f.write(HOSTILE_HEADER)
+            f.write('Definition cases : list ps_hcase := [\n%s].\n' % ';\n'.join(texts))
+            f.write('Eval vm_compute in bad_hostile_cases 0 cases.\n')
+        k += 1
+    print(len(cs), 'hostile cases', k, 'shards in', outdir, dict(kinds))
+
 def main():
+    if sys.argv[1] == 'hostile':
+        return main_hostile(int(sys.argv[2]), int(sys.argv[3]), sys.argv[4] if len(sys.argv) > 4 else '/var/tmp/parse/hostile')
     seed, n = int(sys.argv[1]), int(sys.argv[2])
     outdir = sys.argv[3] if len(sys.argv) > 3 else '/var/tmp/parse'
     os.makedirs(outdir, exist_ok=True)
